@@ -96,6 +96,32 @@ def run_tlc(module, cfg, workdir, env=None, workers=8, heap="6g", timeout=3600, 
     return res
 
 
+def run_tlapm(module, workdir, timeout=900):
+    """check spec/proofs/<module>.tla with the TLA+ proof system, ignoring cached fingerprints; every obligation
+    must be proved (anything else is a tool error: the theorems are about the model, not about /repo)"""
+    os.makedirs(workdir, exist_ok=True)
+    exe = shutil.which("tlapm")
+    if not exe:
+        raise ToolError("tlapm not found")
+    cache = os.path.join(workdir, "tlaps-" + module)
+    shutil.rmtree(cache, ignore_errors=True)
+    os.makedirs(cache)
+    t0 = time.time()
+    try:
+        r = subprocess.run([exe, "--cleanfp", "--threads", "8", "--cache-dir", cache, "-I", SPEC, module + ".tla"],
+                           cwd=os.path.join(SPEC, "proofs"), stdout=subprocess.PIPE, stderr=subprocess.STDOUT, text=True,
+                           timeout=timeout)
+    except subprocess.TimeoutExpired:
+        raise ToolError(f"tlapm timed out on {module}")
+    shutil.rmtree(cache, ignore_errors=True)
+    with open(os.path.join(workdir, module + ".tlapm.log"), "w") as f:
+        f.write(r.stdout)
+    m = re.search(r"All (\d+) obligations? proved", r.stdout)
+    if r.returncode != 0 or not m:
+        raise ToolError(f"tlapm: {module}: not all obligations proved\n" + r.stdout[-2000:])
+    return dict(obligations=int(m.group(1)), wall=time.time() - t0)
+
+
 def tlc_failed(res):
     """a TLC run that did not complete normally (parse error, evaluation error, …)"""
     out = res["stdout"]
